@@ -9,6 +9,7 @@ from lib import vlib
 
 NVARS = 4            # user variables u0..u3
 LETBASE = 40         # model variables standing for let-bound names
+ARGBASE = 100        # model variables standing for the evaluated arguments of a binary call (log2 k a b)
 CLASSES = 5          # exception classes 0 (TypeError), E1..E4
 SUBPAIRS = [(2, 1), (3, 1)]   # E2 <: E1, E3 <: E1  (reflexivity is built in)
 
@@ -29,6 +30,7 @@ class Gen:
         self.loopvar = 0
         self.letvars = []
         self.letcount = 0
+        self.focus_p = 0.25
 
     def fresh_k(self):
         self.k += 1
@@ -56,8 +58,201 @@ class Gen:
     def body(self, d, loop, lo=0, hi=3):
         return [self.expr(d, loop) for _ in range(self.rng.randrange(lo, hi + 1))]
 
+    # ---- opt-in focused productions (forms "focus" / "log2"); nothing below draws from the rng unless asked for,
+    # so the stream of a generator created without these forms is unchanged
+    def lit(self, truthy=None):
+        """a constant of the wanted truthiness (any if None)"""
+        if truthy is None:
+            truthy = self.rng.random() < 0.5
+        return ("const", self.rng.choice([("int", 1), ("int", 2), ("int", 7), ("int", -3), ("bool", True)] if truthy
+                                         else [("int", 0), ("bool", False), ("none",)]))
+
+    def plain(self, truthy=None):
+        """an operand that needs no statements, of the wanted truthiness"""
+        c = self.lit(truthy)
+        r = self.rng.random()
+        if r < 0.45:
+            return ("log", self.fresh_k(), c)
+        if r < 0.55:
+            return ("not", ("log", self.fresh_k(), self.lit(not (c[1][0] != "none" and bool(c[1][1])))))
+        return c
+
+    def small_stmt(self):
+        """a form that compiles to statements"""
+        r = self.rng.random()
+        if r < 0.5:
+            return ("log", self.fresh_k(), self.const())
+        if r < 0.8:
+            return ("setv", self.rng.randrange(NVARS), self.const())
+        return ("setv", self.rng.randrange(NVARS), ("log", self.fresh_k(), self.const()))
+
+    def valueless(self, d, loop):
+        """a form that is reached, falls through, and whose Result has statements but no expression: its value is None"""
+        rng = self.rng
+        r = rng.random()
+        if r < 0.4:
+            return ("setv", rng.randrange(NVARS), ("log", self.fresh_k(), self.const()) if rng.random() < 0.5 else self.const())
+        if r < 0.6 and "while" in self.forms:
+            a, b = NVARS + 2 * self.loopvar, NVARS + 2 * self.loopvar + 1
+            self.loopvar += 1
+            step = ("if", ("var", b), ("setv", b, ("const", ("bool", False))), ("setv", a, ("const", ("bool", False))))
+            w = ("while", ("var", a), [step, ("log", self.fresh_k(), self.const())], None if rng.random() < 0.6 else [self.plain()])
+            return ("do", [("setv", a, ("const", ("bool", True))), ("setv", b, ("const", ("bool", rng.random() < 0.5))), w])
+        if r < 0.8:
+            return ("do", [("log", self.fresh_k(), self.const()), ("setv", rng.randrange(NVARS), self.const())])
+        return ("setv", rng.randrange(NVARS), self.lit())
+
+    def lifted_if(self, val=None):
+        """an `if` that needs statements (a branch holds a do with a statement) and has a value in both branches"""
+        rng = self.rng
+        ints = [("int", n) for n in (0, 1, 2, 7, -3, 30, 40)] + [("bool", True), ("bool", False), ("none",)]
+        v1 = ("const", val if val is not None else rng.choice(ints))
+        v2 = ("const", rng.choice(ints))
+        cond = self.plain() if rng.random() < 0.7 else ("var", rng.randrange(NVARS))
+        then = ("do", [self.small_stmt(), v1])
+        other = v2 if rng.random() < 0.6 else ("do", [self.small_stmt(), v2])
+        if rng.random() < 0.25:
+            then, other = other, then
+        return ("if", cond, then, other)
+
+    def two_live(self, d, loop):
+        """a binary call whose two arguments are statement-lifted ifs: both values are live when the call is made"""
+        a, b = self.lifted_if(), self.lifted_if()
+        r = self.rng.random()
+        if r < 0.15:
+            b = ("log", self.fresh_k(), b)
+        elif r < 0.25 and "try" in self.forms:
+            b = ("try", [b], [(("all",), [self.plain()])], None, None)
+        elif r < 0.35:
+            a = ("do", [self.small_stmt(), a])
+        return self.mk_log2(a, b)
+
+    def mk_log2(self, a, b):
+        """docs/semantics.rst leaves the order of sibling arguments unspecified when a later one needs statements
+        (its statements run before the earlier argument's expression).  The reference evaluates left to right, so
+        the generated calls are those for which both orders coincide: either b needs no statements, or what is
+        left of a after its statements is a constant or a compiler temporary."""
+        if may_need_stmts(b) and not pure_residue(a):
+            if self.rng.random() < 0.5:
+                a = ("if", self.plain(), ("do", [self.small_stmt(), a]), self.lit())
+            else:
+                b = self.plain()
+        return ("log2", self.fresh_k(), a, b)
+
+    def ladder(self, d, loop):
+        """an else-if ladder (what cond expands to) with two statement-lifted ifs, both live, in a clause other
+        than the first -- in the clause's value or in its test"""
+        rng = self.rng
+        n = rng.choice([2, 2, 3, 4])                # clauses
+        hot = rng.randrange(1, n)                   # the clause that holds the binary call
+        clauses = []
+        for i in range(n):
+            if i < hot:
+                test = self.plain(False) if rng.random() < 0.85 else self.plain()
+                val = self.plain() if rng.random() < 0.7 else self.expr(min(d - 1, 1), loop)
+            elif i == hot:
+                tl = self.two_live(d, loop)
+                if rng.random() < 0.3:
+                    test, val = tl, self.plain()        # in the test of the later clause
+                else:
+                    test = self.plain(True) if rng.random() < 0.85 else self.plain()
+                    r = rng.random()
+                    val = tl if r < 0.6 else ("log", self.fresh_k(), tl) if r < 0.7 else ("do", [self.small_stmt(), tl]) if r < 0.8 \
+                        else ("not", tl) if r < 0.9 else ("bool", rng.random() < 0.5, [self.plain(), tl])
+            else:
+                test, val = self.plain(), self.plain()
+            clauses.append((test, val))
+        e = self.plain() if rng.random() < 0.7 else ("const", ("none",))
+        for test, val in reversed(clauses):
+            e = ("if", test, val, e)
+        return e
+
+    def try_valueless_handler(self, d, loop):
+        """a try whose body raises, whose selected handler ends in a value-less statement, and whose value is used"""
+        rng = self.rng
+        c = rng.randrange(CLASSES)
+        r = rng.random()
+        if r < 0.6:
+            boom = ("raise", ("const", ("exn", c)))
+        elif r < 0.8:
+            boom = ("raise", ("log", self.fresh_k(), ("const", ("exn", c))))
+        else:
+            boom = ("if", self.plain(True), ("raise", ("const", ("exn", c))), self.plain())
+        body = [self.small_stmt() for _ in range(rng.randrange(0, 2))] + [boom]
+        if rng.random() < 0.2:
+            body.append(self.plain())                  # never reached
+        sup = dict(SUBPAIRS).get(c)
+        r = rng.random()
+        if r < 0.5:
+            ty = ("one", c)
+        elif r < 0.65 and sup is not None:
+            ty = ("one", sup)
+        elif r < 0.8:
+            ty = ("many", rng.choice([[c, rng.randrange(CLASSES)], [rng.randrange(CLASSES), c]]))
+        else:
+            ty = ("all",)
+        hbody = [self.small_stmt() for _ in range(rng.randrange(0, 2))] + [self.valueless(d, loop)]
+        hs = [(ty, hbody)]
+        if rng.random() < 0.3:
+            others = [x for x in range(CLASSES) if x != c and (c, x) not in SUBPAIRS]
+            hs.insert(0, (("one", rng.choice(others)), [self.plain()]))      # does not match: skipped
+        final = [self.small_stmt()] if rng.random() < 0.3 else None
+        return ("try", body, hs, None, final)
+
+    def use_value(self, e, loop):
+        """a context in which the value of e is observed"""
+        rng = self.rng
+        r = rng.random()
+        if r < 0.3:
+            return e
+        if r < 0.5:
+            return ("log", self.fresh_k(), e)
+        if r < 0.65:
+            return ("setv", rng.randrange(NVARS), e)
+        if r < 0.75 and "setx" in self.forms:
+            return ("setx", rng.randrange(NVARS), e)
+        if r < 0.85:
+            return ("bool", rng.random() < 0.5, [e, self.plain()])
+        if r < 0.95 or "log2" not in self.forms:
+            return ("if", self.plain(), e, self.plain())
+        return ("log2", self.fresh_k(), e, self.plain())
+
+    def bool_valueless(self, d, loop):
+        """and/or with a value-less statement operand that is reached, in a position other than the first"""
+        rng = self.rng
+        isand = rng.random() < 0.5
+        n = rng.randrange(2, 6)
+        pos = rng.randrange(1, n)
+        ops = []
+        for i in range(n):
+            if i == pos:
+                ops.append(self.valueless(d, loop))
+            elif i < pos:
+                ops.append(self.plain(isand) if rng.random() < 0.8 else self.lifted_if(self.lit(isand)[1]))
+            else:
+                ops.append(self.plain() if rng.random() < 0.8 else self.valueless(d, loop))
+        return ("bool", isand, ops)
+
+    def focus(self, d, loop):
+        rng = self.rng
+        picks = ["boolvl"]
+        if "log2" in self.forms:
+            picks += ["ladder", "ladder", "twolive"]
+        if "try" in self.forms:
+            picks += ["tryvl", "tryvl"]
+        f = rng.choice(picks)
+        if f == "boolvl":
+            return self.use_value(self.bool_valueless(d, loop), loop)
+        if f == "ladder":
+            return self.use_value(self.ladder(d, loop), loop)
+        if f == "twolive":
+            return self.use_value(self.two_live(d, loop), loop)
+        return self.use_value(self.try_valueless_handler(d, loop), loop)
+
     def expr(self, d, loop=0):
         rng = self.rng
+        if "focus" in self.forms and d >= 2 and rng.random() < self.focus_p:
+            return self.focus(d, loop)
         if d <= 0 or rng.random() < 0.18:
             if rng.random() < 0.5:
                 return ("log", self.fresh_k(), self.const())
@@ -75,9 +270,14 @@ class Gen:
                 choices.append(f)
         if loop > 0 and "while" in self.forms:
             choices += ["break", "continue"]
+        if "log2" in self.forms:
+            choices.append("log2")
         f = rng.choice(choices)
         if f == "log":
             return ("log", self.fresh_k(), self.expr(d - 1, loop))
+        if f == "log2":
+            a = self.expr(d - 1, loop)
+            return self.mk_log2(a, self.expr(d - 1, loop))
         if f == "do":
             return ("do", self.body(d - 1, loop, 0, 3))
         if f == "setv":
@@ -144,6 +344,75 @@ class Gen:
         raise AssertionError(f)
 
 
+def has_expr(e):
+    """the compiled Result surely has an expression (under-approximation)"""
+    f = e[0]
+    if f in ("const", "var", "log", "log2", "not", "setx", "bool", "if"):
+        return True
+    if f in ("do", "let"):
+        b = e[1] if f == "do" else e[3]
+        return bool(b) and has_expr(b[-1])
+    return False
+
+
+def surely_needs_stmts(e):
+    """the compiled Result surely has statements (under-approximation)"""
+    f = e[0]
+    if f in ("setv", "while", "raise", "break", "continue", "let"):
+        return True
+    if f == "not":
+        return surely_needs_stmts(e[1])
+    if f in ("setx", "log"):
+        return surely_needs_stmts(e[2])
+    if f == "log2":
+        return surely_needs_stmts(e[2]) or surely_needs_stmts(e[3])
+    if f == "do":
+        return any(surely_needs_stmts(x) for x in e[1]) or any(has_expr(x) for x in e[1][:-1])
+    if f == "bool":
+        return any(surely_needs_stmts(x) for x in e[2])
+    if f == "if":
+        return any(surely_needs_stmts(x) for x in e[1:])
+    if f == "try":
+        return bool(e[2]) or bool(e[4]) or any(surely_needs_stmts(x) for x in e[1])
+    return False
+
+
+def may_need_stmts(e):
+    """the compiled Result may have statements (over-approximation)"""
+    f = e[0]
+    if f in ("const", "var"):
+        return False
+    if f == "not":
+        return may_need_stmts(e[1])
+    if f in ("setx", "log"):
+        return may_need_stmts(e[2])
+    if f == "log2":
+        return may_need_stmts(e[2]) or may_need_stmts(e[3])
+    if f == "do":
+        return len(e[1]) >= 2 or any(may_need_stmts(x) for x in e[1])
+    if f == "bool":
+        return any(may_need_stmts(x) for x in e[2])
+    if f == "if":
+        return any(may_need_stmts(x) for x in e[1:])
+    return True
+
+
+def pure_residue(e):
+    """what is left of e after its statements is surely a constant or a temporary the compiler issued for e"""
+    f = e[0]
+    if f == "const":
+        return True
+    if f == "if":
+        return surely_needs_stmts(e[2]) or surely_needs_stmts(e[3])
+    if f == "bool":
+        return any(surely_needs_stmts(x) for x in e[2][1:])
+    if f == "try":
+        return bool(e[2]) or bool(e[4])
+    if f == "do":
+        return bool(e[1]) and pure_residue(e[1][-1])
+    return False
+
+
 def nvars_of(e):
     """number of user variables (incl. loop control variables) the program mentions"""
     m = NVARS
@@ -193,9 +462,9 @@ def log_points(e):
     stack = [e]
     while stack:
         x = stack.pop()
-        if isinstance(x, tuple) and x and x[0] == "log":
+        if isinstance(x, tuple) and x and x[0] in ("log", "log2"):
             out.append(x[1])
-            stack.append(x[2])
+            stack.extend(x[2:])
         elif isinstance(x, tuple) and x and isinstance(x[0], str):
             stack.extend(x[1:])
         elif isinstance(x, (list, tuple)):
@@ -255,6 +524,8 @@ def to_hy(e):
             del _ENV[k]
     if f == "log":
         return "(log %d %s)" % (e[1], to_hy(e[2]))
+    if f == "log2":
+        return "(log2 %d %s %s)" % (e[1], to_hy(e[2]), to_hy(e[3]))
     if f == "do":
         return "(do %s)" % " ".join(map(to_hy, e[1])) if e[1] else "(do)"
     if f in ("setv", "setx"):
@@ -310,8 +581,21 @@ def coq_opt_list(x):
     return "None" if x is None else "(Some %s)" % coq_list([to_coq(y) for y in x])
 
 
+_COQ_MODE = ["run"]
+
+
 def to_coq(e):
     f = e[0]
+    if f == "log2":
+        # (log2 k a b): a call with two arguments -- a, then b are evaluated, then the effect point k; the call returns
+        # its first argument if k is odd, else its second.  The model has no such form; for the REFERENCE run it is
+        # spelled with two fresh variables that hold the evaluated arguments (never shown, never read elsewhere);
+        # for the question "does Result.rename fire" the arguments are compiled as they stand.
+        k, a, b = e[1], to_coq(e[2]), to_coq(e[3])
+        if _COQ_MODE[0] == "renames":
+            return "(HDo [%s; %s; (HLog %d (HConst VNone))])" % (a, b, k)
+        w1, w2 = ARGBASE + 2 * k, ARGBASE + 2 * k + 1
+        return "(HDo [(HSetv %d %s); (HSetv %d %s); (HLog %d (HVar %d))])" % (w1, a, w2, b, k, w1 if k % 2 else w2)
     if f == "let":
         return "(HDo %s)" % coq_list(["(HSetv %d %s)" % (e[1], to_coq(e[2]))] + [to_coq(x) for x in e[3]])
     if f == "const":
@@ -511,7 +795,9 @@ def impl_run(m, e, fault, vals, nvars, budget=2000):
         if k in fault:
             raise classes[fault[k]]()
         return v
-    env = {"log": log, "TypeError": TypeError}
+    def log2(k, a, b):
+        return log(k, a if k % 2 else b)
+    env = {"log": log, "log2": log2, "TypeError": TypeError}
     for c in range(1, CLASSES):
         env["E%d" % c] = classes[c]
     pyvals = []
@@ -556,21 +842,40 @@ COQ_SUB = coq_list(["(%d, %d)" % p for p in SUBPAIRS])
 IMPORTS = ["HyV.Compiler.Syntax", "HyV.Compiler.Run"]
 
 
-def model_eval(progs, what):
-    """what in {'compile', 'run', 'ref'}; progs: list of dict(e, fault, vals).  Returns strings."""
+def _model_exprs(progs, what):
     exprs = []
-    for p in progs:
-        t = to_coq(p["e"])
-        if what == "compile":
-            exprs.append("model_compile %s" % t)
-        elif what == "renames":
-            exprs.append("model_renames %s" % t)
-        else:
-            fn = "model_run" if what == "run" else "ref_run"
-            exprs.append("%s %s %s %d %s %s" % (fn, coq_fault(p["fault"]), COQ_SUB, p.get("fuel", 8),
-                                                coq_list([coq_val(v) for v in p["vals"]]), t))
-    res = vlib.coq_eval(IMPORTS, "Open Scope string_scope.", exprs, tag="cmp")
-    return [r.strip().strip('"') for r in res]
+    _COQ_MODE[0] = "renames" if what == "renames" else "run"
+    try:
+        for p in progs:
+            t = to_coq(p["e"])
+            if what == "compile":
+                exprs.append("model_compile %s" % t)
+            elif what == "renames":
+                exprs.append("model_renames %s" % t)
+            else:
+                fn = "model_run" if what == "run" else "ref_run"
+                exprs.append("%s %s %s %d %s %s" % (fn, coq_fault(p["fault"]), COQ_SUB, p.get("fuel", 8),
+                                                    coq_list([coq_val(v) for v in p["vals"]]), t))
+    finally:
+        _COQ_MODE[0] = "run"
+    return exprs
+
+
+def model_eval_many(progs, whats):
+    """one sharded coq_eval for several questions about the same programs; returns one list per question"""
+    exprs = []
+    for w in whats:
+        exprs += _model_exprs(progs, w)
+    shard = max(60, min(400, -(-len(exprs) // max(1, vlib.NPROC - 2))))
+    res = vlib.coq_eval(IMPORTS, "Open Scope string_scope.", exprs, tag="cmp", shard=shard)
+    res = [r.strip().strip('"') for r in res]
+    n = len(progs)
+    return [res[i * n:(i + 1) * n] for i in range(len(whats))]
+
+
+def model_eval(progs, what):
+    """what in {'compile', 'run', 'ref', 'renames'}; progs: list of dict(e, fault, vals).  Returns strings."""
+    return model_eval_many(progs, [what])[0]
 
 
 # ------------------------------------------------------------------ the differential run shared by C01/C02/C09/C12
@@ -616,9 +921,7 @@ def differential(chk, progs, judge=None):
     """Runs every program through: the model compiler (Coq), the real compiler; PySem (Coq) and CPython on
     the compiled code; the reference semantics (Coq).  Records correspondence disagreements and oracle
     failures (reference vs real behaviour).  `judge(p, src, impl, ref)` may veto/rename a failure key."""
-    mods = model_eval(progs, "compile")
-    runs = model_eval(progs, "run")
-    refs = model_eval(progs, "ref")
+    mods, runs, refs = model_eval_many(progs, ["compile", "run", "ref"])
     for p, m, r, f in zip(progs, mods, runs, refs):
         src = to_hy(p["e"])
         p["src"] = src
@@ -636,7 +939,10 @@ def differential(chk, progs, judge=None):
             chk.case(src, nontrivial=False)
             chk.fail("compile-error", inp, c[1], "compiles", how)
             continue
-        if kinds(p["e"]).get("let"):
+        if kinds(p["e"]).get("log2"):
+            chk.count("programs with a binary call (behaviour only: the model has no call with two arguments; the reference "
+                      "evaluates the arguments left to right into fresh variables)")
+        elif kinds(p["e"]).get("let"):
             chk.count("let-programs (behaviour only: the model spells let-bound names as fresh variables)")
         else:
             try:
